@@ -592,8 +592,51 @@ def gen_scenario(rng, tier, force=None):
                 c["ests"] = list(ests_all)
     sc = {"N": N, "order": order, "cols": cols, "tvals": tvals, "kwargs": kwargs, "calls": calls,
           "vars_all": vars_all, "ests_all": ests_all, "domain": domain, "style": style}
+    if force.get("shadow", rng.random() < 0.25):
+        shadow_scenario(rng, sc)
     finish_scenario(sc)
     return sc
+
+
+def shadow_scenario(rng, sc):
+    """Custom functions named like built-in keys (`press` from an EOS, `rho0`, `eps`, `alpha`
+    when it is not an input), a long list of built-ins that read them, a small
+    `clear_cache_every_nbr_calc` passed through over_time's keyword options; the custom
+    entry first / in the middle / last.  One call: in the property domain (oracle = fresh
+    AurelCore with the custom values as frozen inputs, clean-up disabled)."""
+    names = rng.sample(["press", "press", "rho0", "eps", "alpha"], rng.choice((1, 1, 2)))
+    names = list(dict.fromkeys(names))
+    cols = [c for c in sc["cols"] if c not in ("alpha_max", "rho_tg1")]
+    if "rho" not in cols:
+        cols.append("rho")
+    if "alpha" in names:
+        cols = [c for c in cols if c != "alpha"]
+    sc["cols"] = cols
+    pool = [b for b in DEP_POOL + BUILTINS if b not in names
+            and not (b in ("betamag", "betadown3") and "betaup3" not in cols)]
+    vars_all = rng.sample(pool, rng.randint(5, 14))
+    for nm in names:
+        where = rng.choice(("first", "middle", "last"))
+        pos = {"first": 0, "middle": len(vars_all) // 2, "last": len(vars_all)}[where]
+        vars_all.insert(pos, {"dict": [[nm, SHADOW[nm]]]})
+    if rng.random() < 0.4:
+        vars_all.insert(rng.randrange(0, len(vars_all) + 1), {"dict": [["c1", rng.choice(("fa", "fc"))]]})
+    ests_all = rng.sample(EST_BUILTIN, rng.choice((0, 0, 1, 2)))
+    if rng.random() < 0.3:
+        ests_all.append({"dict": [["tg1", "ta"]]})
+    kwargs = dict(sc["kwargs"])
+    if rng.random() < 0.85:
+        kwargs["clear_cache_every_nbr_calc"] = rng.choice((1, 2, 3, 5))
+    sc.update(cols=cols, vars_all=vars_all, ests_all=ests_all, kwargs=kwargs)
+    if rng.random() < 0.75:
+        sc.update(domain=True, style="shadow_one_call", calls=[{"vars": list(vars_all), "ests": list(ests_all)}])
+    else:
+        # several calls, any distribution: correspondence with the model only
+        n = rng.choice((2, 3))
+        calls = [{"vars": [], "ests": list(ests_all)} for _ in range(n)]
+        for v in vars_all:
+            calls[rng.randrange(n)]["vars"].append(v)
+        sc.update(domain=False, style="shadow_free", calls=calls)
 
 
 def finish_scenario(sc):
@@ -604,7 +647,7 @@ def finish_scenario(sc):
                 for _, tag in i["dict"]:
                     if tag not in cf:
                         cf.append(tag)
-            elif i != "@" and i in BUILTINS + ["alpha", "gammadown3"] and i not in bi:
+            elif i != "@" and i in BUILTINS + DEP_POOL + ["alpha", "gammadown3"] and i not in bi:
                 bi.append(i)
         for i in call["ests"]:
             if isinstance(i, dict):
@@ -636,17 +679,44 @@ def stable_order(sc):
 
 def expected_table(sc, refs):
     """What the property says the final table is (as a dict col -> ids), or None when
-    nothing new is requested."""
+    nothing new is requested.  One-call semantics: the valid new custom variables are
+    evaluated in request order, each on the step's inputs plus the custom values before
+    it; every built-in is computed from the step's inputs plus ALL custom values, which
+    are frozen inputs of the step (whatever the cache settings)."""
     cols = sc["cols"]
     j0 = sc["order"][0]
-    newvars = []          # (name, idfmt)
+    customs = []          # (name, tag) valid and new, in request order
+    builtins = []
+    order = []            # ("c", idx) / ("b", name) in request order
     for i in sc["vars_all"]:
         if isinstance(i, dict):
             for nm, tag in i["dict"]:
                 if nm not in cols and VF[tag][1]:
-                    newvars.append((nm, "cust(%s,row%%d)" % tag, np.ndim(refs.cust(tag, j0)) == 3))
-        elif i != "@" and i not in cols and i in BUILTINS:
-            newvars.append((i, "calc(%s,row%%d)" % i, np.ndim(refs.calc(i, j0)) == 3))
+                    customs.append((nm, tag))
+                    order.append(("c", len(customs) - 1))
+        elif i != "@" and i not in cols and i in BUILTINS + DEP_POOL:
+            builtins.append(i)
+            order.append(("b", i))
+
+    def suffix(k, j):
+        if k == 0:
+            return ""
+        return "|" + ";".join("%s=%s" % (customs[m][0], cust_id(m, j)) for m in range(k))
+
+    def cust_id(m, j):
+        return "cust(%s,row%d%s)" % (customs[m][1], j, suffix(m, j))
+
+    def calc_id(name, j):
+        return "calc(%s,row%d%s)" % (name, j, suffix(len(customs), j))
+
+    newvars = []          # (name, idfun, is3)
+    for kind, x in order:
+        if kind == "c":
+            f = (lambda m: (lambda j: cust_id(m, j)))(x)
+            newvars.append((customs[x][0], f, np.ndim(refs.value(f(j0))) == 3))
+        else:
+            f = (lambda nm: (lambda j: calc_id(nm, j)))(x)
+            newvars.append((x, f, np.ndim(refs.value(f(j0))) == 3))
     ests = []
     for i in sc["ests_all"]:
         if isinstance(i, dict):
@@ -655,24 +725,24 @@ def expected_table(sc, refs):
                     ests.append((nm, "estc(%s,%%s)" % tag))
         elif i != "@" and i in EST_BUILTIN:
             ests.append((i, "est(%s,%%s)" % i))
-    scal = [(c, "in(%s,row%%d)" % c) for c in cols if np.ndim(refs.inp(c, j0)) == 3]
-    scal += [(nm, fmt) for nm, fmt, three in newvars if three]
+    scal = [(c, (lambda cc: (lambda j: "in(%s,row%d)" % (cc, j)))(c)) for c in cols if np.ndim(refs.inp(c, j0)) == 3]
+    scal += [(nm, f) for nm, f, three in newvars if three]
     estcols = []
     for en, efmt in ests:
-        for k, kfmt in scal:
+        for k, kf in scal:
             key = k + "_" + en
             if key not in cols and key not in [e[0] for e in estcols] and key not in [v[0] for v in newvars]:
-                estcols.append((key, efmt, kfmt))
+                estcols.append((key, efmt, kf))
     if not newvars and not estcols:
         return None
     _, tags = stable_order(sc)
     exp = {}
     for c in cols:
         exp[c] = ["in(%s,row%d)" % (c, j) for j in tags]
-    for nm, fmt, _ in newvars:
-        exp[nm] = [fmt % j for j in tags]
-    for key, efmt, kfmt in estcols:
-        exp[key] = [efmt % (kfmt % j) for j in tags]
+    for nm, f, _ in newvars:
+        exp[nm] = [f(j) for j in tags]
+    for key, efmt, kf in estcols:
+        exp[key] = [efmt % kf(j) for j in tags]
     return exp
 
 
